@@ -48,12 +48,12 @@ type c05Hist struct {
 
 func init() {
 	register(&Prop{ID: "C05", Run: c05Run,
-		Rule: "pairs/triples of nodes (containers, lists, leaves) generated as near-misses of one another (one key more/less, one leaf changed, list reordered, kind swapped) and independently; 400 further pairs differ in the member NAMES of one container only, the two name sets having the same size and being two segmentations of one token sequence under a separator (NUL, unit separator, newline, tab, '.', '/', ',', '|', ':', '=', blank, none: {\"a<sep>b\":v,\"c\":v} next to {\"a\":v,\"b<sep>c\":v}), with equal values at equal positions of the sorted name lists — different keys that a comparison of folded key sets identifies (c05_keys.go); one pair in seven differs in ONE leaf by a value-range twin (vr_util.go / c05ValueTwins: float64 +0.0 next to -0.0 — equal scalars: Go's ==, reflect.DeepEqual and cmp.Equal identify them —, -0.0 next to int 0 / \"-0\" / false / null, MaxInt64 and MaxUint64 next to the float64 they round to, denormals next to 0, +Inf next to MaxFloat64 and -Inf, strings that differ by case, a trailing newline, CRLF vs LF, NBSP vs space, Unicode normalisation, case pairs outside ASCII, 20-digit strings one apart, boolean spellings next to booleans) and a third of all nodes carry value-range scalars at some leaves; the expected answer is literally the property's: kind(x)==kind(y) && reflect.DeepEqual(plain(x), plain(y)); thorough tier adds all ordered pairs of all nodes up to 4 nodes over keys {a,b} and scalars {1,2,null}; clone cases edit one side after Clone; heap-clone cases build the document in one of seven ways (FromMap, AddValue/ListNode with own or shared nil leaves, AddContainer/AddList/Set/Append, shared subtrees, containers with an add-and-remove history), encode the real object graph as an explicit heap by pointer identity, Clone, and compare the sharing map (which result node is which input object / a new object) with the heap model, then write in place to every container/list object of the original and of the clone; hist cases give a document a history of 1-6 in-place edits (AddValue / Remove / AddContainer / AddList / Set / MustSet / Append / Clear, through the nested builder, through Lookup, or through the root's path API; consecutive edits differ in operation or route and mostly stay on one node), some nested nodes attached as sealed views whose builders the harness keeps, and before every edit and at the end read the document through every read API (Equals both ways against a freshly built document of the expected content and against its clone, reflexivity, Children/Items walk, Size, AsMap/AsSlice, Flatten, Search, Lookup) and clone it through every entry point (builder, sealed view, every nested node): every clone must still hold the content of its moment after all later edits. A case is non-trivial when at least one side is a composite with a child; distinct = distinct canonical case JSON (hash).",
+		Rule: "pairs/triples of nodes (containers, lists, leaves) generated as near-misses of one another (one key more/less, one leaf changed, list reordered, kind swapped) and independently; 400 further pairs differ in the member NAMES of one container only, the two name sets having the same size and being two segmentations of one token sequence under a separator (NUL, unit separator, newline, tab, '.', '/', ',', '|', ':', '=', blank, none: {\"a<sep>b\":v,\"c\":v} next to {\"a\":v,\"b<sep>c\":v}), with equal values at equal positions of the sorted name lists — different keys that a comparison of folded key sets identifies (c05_keys.go); one pair in seven differs in ONE leaf by a value-range twin (vr_util.go / c05ValueTwins: float64 +0.0 next to -0.0 — equal scalars: Go's ==, reflect.DeepEqual and cmp.Equal identify them —, -0.0 next to int 0 / \"-0\" / false / null, MaxInt64 and MaxUint64 next to the float64 they round to, denormals next to 0, +Inf next to MaxFloat64 and -Inf, strings that differ by case, a trailing newline, CRLF vs LF, NBSP vs space, Unicode normalisation, case pairs outside ASCII, 20-digit strings one apart, boolean spellings next to booleans) and a third of all nodes carry value-range scalars at some leaves; the expected answer is literally the property's: kind(x)==kind(y) && reflect.DeepEqual(plain(x), plain(y)); thorough tier adds all ordered pairs of all nodes up to 4 nodes over keys {a,b} and scalars {1,2,null}; clone cases edit one side after Clone; heap-clone cases build the document in one of seven ways (FromMap, AddValue/ListNode with own or shared nil leaves, AddContainer/AddList/Set/Append, shared subtrees, containers with an add-and-remove history), encode the real object graph as an explicit heap by pointer identity, Clone, and compare the sharing map (which result node is which input object / a new object) with the heap model, then write in place to every container/list object of the original and of the clone; hist cases give a document a history of 1-6 in-place edits (AddValue / Remove / AddContainer / AddList / Set / MustSet / Append / Clear, through the nested builder, through Lookup, or through the root's path API; consecutive edits differ in operation or route and mostly stay on one node), some nested nodes attached as sealed views whose builders the harness keeps, and before every edit and at the end read the document through every read API (Equals both ways against a freshly built document of the expected content and against its clone, reflexivity, Children/Items walk, Size, AsMap/AsSlice, Flatten, Search, Lookup) and clone it through every entry point (builder, sealed view, every nested node): every clone must still hold the content of its moment after all later edits; deep cases (c05_deep.go, direct predicates only, 17 per quick run) are pairs of chains of 64 .. 100000 nested composites built through the builder API top-down and bottom-up (containers, every n-th level a list, depths on a ladder over 255/256, 1000/1024, 4096, the decoders' nesting limit 10000 and its neighbours, 16384 .. 100000, and two random ones) with the same content or a difference at one level, judged by construction and by a work-list comparison of the two object graphs: reflexive, symmetric, transitive, exactly-when-same-content, sealed views, clone equal / same kind / same content / nothing shared / unchanged by later edits of the original. A case is non-trivial when at least one side is a composite with a child; distinct = distinct canonical case JSON (hash).",
 		Assumptions: []string{"scalars are NaN-free; the model's scalars are (Go type, fmt.Sprint text) pairs, on which equality coincides with cmp.Equal except for float64 -0.0 (text \"-0\", yet equal to +0.0): cases in which a negative zero occurs are judged by the direct predicates alone (reference: reflect.DeepEqual on the plain values) and are not sent to the model",
 			"keys come from a path-safe pool (no key ends in an index group: the API invariant discussed under D26)",
 			"heap tie: a node object is identified by the address its pointer holds (a sealed view and its builder are one object), a children map by the address of its header (Children() returns the map itself); item slices are not observable by identity and are covered by the in-place write probes; leaf values are immutable scalars"}})
 	evals["C05"] = c05Eval
-	shrinkers["C05"] = shrinkJSON
+	shrinkers["C05"] = c05Shrink
 }
 
 func c05Run(c *Ctx) {
@@ -205,6 +205,8 @@ func c05Run(c *Ctx) {
 			}
 		}
 	}
+	// "for all nodes": deep ones (c05_deep.go); last of the random streams
+	c05DeepGen(c)
 	if c.Thorough() && !c.searchMode {
 		all := enumNodes(4)
 		c.Note("exhaustive scope: %d nodes of size <= 4, %d ordered pairs", len(all), len(all)*len(all))
@@ -407,6 +409,8 @@ func c05Eval(c *Ctx, kind string, raw []byte) {
 	switch kind {
 	case "heap-clone":
 		heapCloneEval(c, raw)
+	case "deep":
+		c05DeepEval(c, raw)
 	case "pair":
 		var p c05Pair
 		if err := json.Unmarshal(raw, &p); err != nil {
